@@ -327,3 +327,54 @@ Fixpoint c11_cur_bad (i : nat) (seen : list tr) (sm_last : option tr) (l : list 
         if ok then c11_cur_bad (S i) seen sm_last rest else Some i
       else c11_cur_bad (S i) seen sm_last rest
   end.
+
+(** * C06: the reported vote summary equals what is recomputed from the admitted signatures *)
+(** summary = TL [available; total prevote; total precommit; prevote block powers; precommit block powers;
+                  most voted prevote; most voted precommit], block powers = TL [TL [hash; power]] sorted by hash *)
+Fixpoint nat_mem (x : nat) (l : list nat) : bool :=
+  match l with [] => false | y :: t => Nat.eqb x y || nat_mem x t end.
+Fixpoint nat_nodup (l : list nat) : list nat :=
+  match l with [] => [] | x :: t => if nat_mem x t then nat_nodup t else x :: nat_nodup t end.
+
+(** validator indices that signed in a list of [TL [key id; sig]] *)
+Definition signer_idxs (sigs : list tr) : list nat :=
+  flat_map (fun e => match kid_idx (tb (nth_tr e 0)) with Some i => [i] | None => [] end) sigs.
+
+(** power of the DISTINCT validators among [idxs] (indices outside the set carry none) *)
+Definition distinct_power (pows : list N) (idxs : list nat) : N :=
+  fold_left (fun a i => wrap64 (a + nth i pows 0)) (nat_nodup idxs) 0.
+
+Definition recomputed_blocks (pows : list N) (coll : tr) : list (list N * N) :=
+  map (fun e => (tb (nth_tr e 0), distinct_power pows (signer_idxs (tls (nth_tr e 1))))) (tls coll).
+
+Definition recomputed_total (pows : list N) (coll : tr) : N :=
+  distinct_power pows (flat_map (fun e => signer_idxs (tls (nth_tr e 1))) (tls coll)).
+
+(** the least hash among the targets of maximal power; the empty hash while no power is present *)
+Definition recomputed_most_voted (bl : list (list N * N)) : list N :=
+  let mx := fold_left (fun a e => N.max a (snd e)) bl 0 in
+  if mx =? 0 then []
+  else match filter (fun e => snd e =? mx) bl with
+       | [] => []
+       | e :: t => fold_left (fun a x => if bytes_ltb (fst x) a then fst x else a) t (fst e)
+       end.
+
+Definition blocks_tr (bl : list (list N * N)) : tr := TL (map (fun e => TL [TB (fst e); TN (snd e)]) bl).
+
+Definition c06_view_ok (v : tr) : bool :=
+  let pows := v_pows v in
+  let s := nth_tr v 9 in
+  let bpv := recomputed_blocks pows (nth_tr v 7) in
+  let bpc := recomputed_blocks pows (nth_tr v 8) in
+  if v_height v =? 0 then true else
+  (tn (nth_tr s 0) =? fold_left (fun a p => wrap64 (a + p)) pows 0) &&
+  (tn (nth_tr s 1) =? recomputed_total pows (nth_tr v 7)) &&
+  (tn (nth_tr s 2) =? recomputed_total pows (nth_tr v 8)) &&
+  tr_eqb (nth_tr s 3) (blocks_tr bpv) && tr_eqb (nth_tr s 4) (blocks_tr bpc) &&
+  bytes_eqb (tb (nth_tr s 5)) (recomputed_most_voted bpv) &&
+  bytes_eqb (tb (nth_tr s 6)) (recomputed_most_voted bpc).
+
+(** sub-minority consequence on a trace: the voting round only moves on within a height when the round left
+    holds nil precommits or next-round votes of at least a third of its power (checked on the views the state
+    machine and gossip would see is left to C11; here: the summary of every view is the recomputation) *)
+Definition c06_obs_ok (o : tr) : bool := c06_view_ok (nth_tr o 0) && c06_view_ok (nth_tr o 1).
